@@ -614,6 +614,17 @@ func (g *G) NewEntry(et reflect.Type, keyType reflect.Type, listSch *yang.Entry,
 		if !vok {
 			return e, reflect.Value{}, false
 		}
+		if v.Kind() == reflect.Interface && !v.IsNil() {
+			// no zero-valued union members as list keys: ygot treats a union holding the zero
+			// value of its member type as unset (reported as a finding through non-key
+			// leaves); as a key that would only repeat the same finding in every list property
+			switch ev := v.Elem(); ev.Kind() {
+			case reflect.Bool, reflect.String, reflect.Int8, reflect.Int16, reflect.Int32, reflect.Int64, reflect.Uint8, reflect.Uint16, reflect.Uint32, reflect.Uint64, reflect.Float64:
+				if ev.IsZero() {
+					return e, reflect.Value{}, false
+				}
+			}
+		}
 		e.Elem().Field(i).Set(v)
 	}
 	k, kok := KeyFromEntry(e.Elem(), keyType, names)
